@@ -94,6 +94,12 @@ def run_tv(ctx, n_cases, max_len=800):
                                 find_extrema_kwargs=copy.deepcopy(o['find_extrema_kwargs']), return_samples=o['return_samples'])
                     b.load(df, c['sig'], c['fs'], c['f_range'])
                     b.recompute_edges(red if red else None)
+                    if i % 8 == 3:
+                        # the user recomputes a second time on the same object: the SECOND call is judged (input = table after the first call,
+                        # thresholds = the object's thresholds lowered by r once, not twice)
+                        df = b.df_features
+                        pre = tt.snapshot(df)
+                        b.recompute_edges(red if red else None)
                     out = b.df_features
                     th2 = {k: (v - red if k.endswith('_threshold') else v) for k, v in th.items()}
                     if min(v for k, v in th2.items() if k.endswith('_threshold')) < 0:
